@@ -699,7 +699,7 @@ def run(ctx: Ctx) -> None:
     ]
     loop = steploop.new_loop()
     enable_eager(loop)
-    pool = ThreadPoolExecutor(max_workers=ctx.pick(10, 6))
+    pool = ThreadPoolExecutor(max_workers=ctx.pick(16, 6))
     # ---- 1. models (run concurrently with the replays below; results are registered in a fixed order).
     # They are submitted AFTER the dumps and simulations the replays wait for.
     model_specs: List[Tuple[str, str]] = []
@@ -728,7 +728,7 @@ def run(ctx: Ctx) -> None:
     sim_jobs = []
     for side in ("server", "client"):
         hb_cover = dict(hb=2, mt=4, mp=2, mc=0, md=0, kinds=("data", "pong"), tasks=("R",))
-        big_cover = dict(tasks=("C", "B"), kinds=("close",), mp=0, mt=1, mc=1, md=1)
+        big_cover = dict(tasks=("C", "B"), kinds=("close",), mp=0, mt=1, mc=1, md=0)
         # connection torn down from our own side; write back-pressure around close(); heartbeat with autoclose off
         lc_cover = dict(tasks=("R", "C"), mp=1, mt=1, mc=0, md=0, lc=1)
         pz_cover = dict(tasks=("C",), kinds=("close",), mp=1, mt=1, mc=1, md=1, pz=1)
@@ -739,6 +739,8 @@ def run(ctx: Ctx) -> None:
                                hb_cover, dict(tasks=("C", "B"), kinds=("close",), mp=1, mt=2, mc=1, md=1),
                                lc_cover, dict(tasks=("R", "C"), kinds=("close",), mp=1, mt=2, mc=1, md=1, pz=1), hbc_cover])
         for ck in cover_cfgs:
+            if ck.get("pz") and side == "client":
+                continue        # only the server's close() drains: on the client a write pause changes nothing
             p, consts = write_cfg(side, fixed=False, **ck)
             cover_jobs.append((side, ck, consts, pool.submit(cover_behaviours, "WsSession", p, timeout=2400, workers=1)))
         for kw in (dict(tasks=("R", "C", "S"), kinds=("data", "close", "ping", "bad"), rt=1, mp=3, mt=4),
@@ -750,7 +752,7 @@ def run(ctx: Ctx) -> None:
                    dict(tasks=("R", "C"), kinds=("data", "close"), mp=2, mt=3, lc=1, pz=1),
                    dict(hb=2, mt=6, autoclose=False, kinds=("data", "close", "pong"), mp=3)):
             p, consts = write_cfg(side, fixed=False, **kw)
-            sim_jobs.append((side, consts, pool.submit(simulate_behaviours, "WsSession", p, num=ctx.pick(60, 1500), depth=40,
+            sim_jobs.append((side, consts, pool.submit(simulate_behaviours, "WsSession", p, num=ctx.pick(40, 1500), depth=40,
                                                        seed=ctx.seed, timeout=600)))
     model_jobs = [(name, pool.submit(run_tlc, "WsSession", p, workers=16, timeout=ctx.pick(900, 2400), deadlock=False))
                   for name, p in model_specs]
